@@ -904,6 +904,26 @@ func (c *Ctx) evalCall(e *Expr, env *Env) *Val {
 			return c.iteVal(lt.S, a, b)
 		}
 		return c.iteVal(lt.S, b, a)
+	case "as", "isType":
+		// as(x, T): view the interface/pointer value x as *T (x holds a *T; interface values
+		// holding a non-nil pointer are identified with that pointer)
+		// isType(x, T): the dynamic type of interface value x is *T
+		x := arg(0)
+		if x == nil || len(e.Args) < 2 {
+			return nil
+		}
+		tn := qualName(e.Args[1])
+		t := c.resolveType(tn, env)
+		if t == nil {
+			c.specErr("%s: unknown type %s", e.Name, tn)
+			return nil
+		}
+		pt := types.NewPointer(t)
+		if e.Name == "as" {
+			return &Val{K: VScalar, T: pt, S: x.S}
+		}
+		c.declareFun("dyntype", []string{"Int"}, "Int")
+		return &Val{K: VScalar, T: boolT, S: sAnd(sNot(sEq(x.S, "0")), sEq(sApp("dyntype", x.S), c.typeTag(pt)))}
 	case "resultOf":
 		// resultOf(x, "callee pattern"): the value x is (on this path) the result of a call
 		// to a matching callee - provenance, decided by data flow, not by value equality
